@@ -63,6 +63,7 @@ ADAPT = {('InsertAxis', 'evalf'): _insertaxis, ('InRange', 'evalf'): _inrange, (
 
 class _ClsProxy:
     def __init__(self, cls): self._cls = cls
+    def __call__(self, *a, **kw): return self._cls(*a, **kw)
     def __getattr__(self, n):
         ad = ADAPT.get((self._cls.__name__, n))
         return ad if ad else getattr(self._cls, n)
